@@ -1225,6 +1225,16 @@ class Interp:
             if spec is not None:
                 return self.exec_for_invariant(st, fr, it, spec)
             return self.exec_for_generic(st, fr, it)
+        if isinstance(it, SList) and it.items and all(isinstance(x, str) for x in it.items):
+            # a contract may give an invariant for a loop over a list of known strings too (one generic iteration instead of
+            # len(list) unrolled ones): the list becomes a sequence term with exactly these elements
+            spec = self.loop_specs.get((fr.qualname, self._loop_ordinal(fr, st)))
+            if spec is not None:
+                Z = self.Z
+                base = z3.Concat(*[z3.Unit(Z.con["str"](z3.StringVal(x))) for x in it.items]) if len(it.items) > 1 else \
+                    z3.Unit(Z.con["str"](z3.StringVal(it.items[0])))
+                seq = SSeq(base, lambda x: Z.rec["str"](x), [lambda v: SStr(Z.acc["s"](v.t))])
+                return self.exec_for_invariant(st, fr, seq, spec)
         if isinstance(it, SDictItems):
             return self.exec_for_dictitems(st, fr, it.d)
         items = self.iterate(it)
@@ -2093,6 +2103,21 @@ class Interp:
                 return type(obj)(obj.items[lo:hi])
             if isinstance(obj, str) and (lo is None or isinstance(lo, int)) and (hi is None or isinstance(hi, int)):
                 return obj[lo:hi]
+            if isinstance(obj, SSeq) and lo in (None, 0) and isinstance(hi, int) and not isinstance(hi, bool) and 0 <= hi <= 3 \
+                    and not getattr(obj, "enumerated", False):
+                # seq[:k] for a small constant k: the first min(k, len) elements, by case distinction on the length
+                out = []
+                for j in range(hi):
+                    if not self.branch(z3.Length(obj.base) > j):
+                        break
+                    x = obj.base[j]
+                    if obj.dom is not None:
+                        self.assume(obj.dom(x))
+                    val = SV(x)
+                    for f in obj.maps:
+                        val = f(val)
+                    out.append(val)
+                return SList(out)
             raise Unsupported("slice")
         key = self.eval(node.slice, fr)
         return self.get_item(obj, key)
@@ -2247,8 +2272,8 @@ class Interp:
         return SSet([self.hashable(x) for x in self._comp(node, fr, lambda f: self.eval(node.elt, f))])
 
     def e_DictComp(self, node, fr):
-        if len(node.generators) == 1 and not node.generators[0].ifs:
-            # {k(x): v(x) for x in <abstract collection>}: the collection may know how to describe the result
+        if len(node.generators) == 1:
+            # {k(x): v(x) for x in <abstract collection> [if c(x)]}: the collection may know how to describe the result
             g = node.generators[0]
             it = self.eval(g.iter, fr)
             hook = getattr(it, "dictcomp_hook", None)
@@ -2260,7 +2285,7 @@ class Interp:
                     f2.local_names = getattr(fr, "local_names", ())
                     self.assign(g.target, e, f2)
                     return self.eval(node.key, f2), self.eval(node.value, f2)
-                return hook(self, image)
+                return hook(self, image, bool(g.ifs))
         pairs = self._comp(node, fr, lambda f: (self.hashable(self.eval(node.key, f)), self.eval(node.value, f)))
         return SDict(dict(pairs))
 
